@@ -11,12 +11,18 @@
 (***************************************************************************)
 EXTENDS Naturals, Sequences, FiniteSets, TLC
 
+\* (the type annotation comments are for Apalache, which discharges an inductive invariant in Apa_SchemaCache.tla)
+
+\* @type: (Seq(<<Str, Bool>>), Str) => Bool;
 HasKey(c, k) == \E i \in DOMAIN c : c[i][1] = k
+\* @type: (Seq(<<Str, Bool>>), Str) => Bool;
 Lookup(c, k) == c[CHOOSE i \in DOMAIN c : c[i][1] = k][2]
+\* @type: (Seq(<<Str, Bool>>)) => (Int -> Str);
 Keys(c) == [i \in DOMAIN c |-> c[i][1]]
 
 \* _add_to_cache: it = reversed(c); while len(c) >= maxlen: c.pop(next(it)); c[t] = v
 \* The reversed iterator survives exactly one pop; a second next() raises RuntimeError.
+\* @type: (Seq(<<Str, Bool>>), Str, Bool, Int) => <<Str, Seq(<<Str, Bool>>)>>;
 AddToCache(c, k, v, maxlen) ==
     IF Len(c) < maxlen THEN <<"ok", Append(c, <<k, v>>)>>
     ELSE LET c1 == SubSeq(c, 1, Len(c) - 1) IN        \* pops the most recently inserted key
@@ -28,6 +34,7 @@ FreshOutcome(fresh, ef) == IF fresh = "valid" THEN "True" ELSE IF ef THEN "Raise
 \* schema_valid / valid_against_schema share this shape (after "fix: a cached failure was
 \* returned instead of raising when failure is expected"): a cached False is not served
 \* to a caller that expects the failure to be raised.
+\* @type: (Seq(<<Str, Bool>>), Str, Bool, Str, Int) => <<Str, Seq(<<Str, Bool>>)>>;
 Validate(c, k, ef, fresh, maxlen) ==
     IF HasKey(c, k) /\ (Lookup(c, k) \/ ~ef) THEN <<IF Lookup(c, k) THEN "True" ELSE "False", c>>
     ELSE IF fresh = "valid" THEN
@@ -37,6 +44,7 @@ Validate(c, k, ef, fresh, maxlen) ==
     ELSE <<"Raise", c>>
 
 \* the pre-fix behaviour, kept to document the defect (TLC refutes HistoryIndependent on it)
+\* @type: (Seq(<<Str, Bool>>), Str, Bool, Str, Int) => <<Str, Seq(<<Str, Bool>>)>>;
 ValidateAsWas(c, k, ef, fresh, maxlen) ==
     IF HasKey(c, k) THEN <<IF Lookup(c, k) THEN "True" ELSE "False", c>>
     ELSE Validate(c, k, ef, fresh, maxlen)
